@@ -20,7 +20,6 @@ FUNCTIONS = [
 ]
 STUBS = ["k-eq-numeric: Literal instances are built with str.__new__ and their _value/_datatype slots set to a symbolic integer and a "
          "numeric XSD datatype (the constructor would realise the lexical form)"]
-_DROPPED = []  # duration_isoformat with a symbolic record stub was tried: int->str conversions do not conclude (900 s), obligation dropped
 ASSUMPTIONS = ["only the direction the property states is demanded of the range checks: a value inside the XSD value space must not be "
                "flagged ill-typed (rdflib accepting too much, e.g. no upper bound for xsd:unsignedLong, is not a violation of the text)"]
 
@@ -99,8 +98,87 @@ def k_ws_idempotent(desc, F, s):
     return None
 
 
+class _DurErr(Exception):
+    pass
+
+
+def _ref_parse_duration(t):
+    """XSD 1.1 durationLexicalRep read character by character -> (negative, months, microseconds); raises _DurErr for
+    a text outside the lexical space. Written from the grammar, shares nothing with rdflib."""
+    n = len(t)
+    i = 0
+    neg = False
+    if i < n and t[i] == "-":
+        neg = True
+        i += 1
+    if i >= n or t[i] != "P":
+        raise _DurErr("no P")
+    i += 1
+    months = 0
+    usecs = 0
+    in_time = False
+    seen = 0  # designators must come in the order Y M D (T) H M S, each at most once
+    order_date = "YMD"
+    order_time = "HMS"
+    rank = 0
+    while i < n:
+        if t[i] == "T":
+            if in_time:
+                raise _DurErr("two T")
+            in_time = True
+            rank = 0
+            i += 1
+            if i >= n:
+                raise _DurErr("bare T")
+            continue
+        v = 0
+        nd = 0
+        while i < n and "0" <= t[i] <= "9":
+            v = v * 10 + (ord(t[i]) - 48)
+            nd += 1
+            i += 1
+        if nd == 0 or i >= n:
+            raise _DurErr("number expected")
+        frac = 0
+        if t[i] == ".":
+            i += 1
+            scale = 100000
+            fd = 0
+            while i < n and "0" <= t[i] <= "9":
+                if fd < 6:
+                    frac += (ord(t[i]) - 48) * scale
+                    scale = scale // 10
+                elif t[i] != "0":
+                    raise _DurErr("more than microsecond precision")
+                fd += 1
+                i += 1
+            if fd == 0 or i >= n or t[i] != "S" or not in_time:
+                raise _DurErr("fraction only in seconds")
+        d = t[i]
+        i += 1
+        table = order_time if in_time else order_date
+        pos = -1
+        for k in range(3):
+            if table[k] == d:
+                pos = k
+        if pos < 0 or pos < rank:
+            raise _DurErr("designator %r out of place" % d)
+        rank = pos + 1
+        seen += 1
+        if in_time:
+            usecs += (v * (3600, 60, 1)[pos]) * 1000000 + frac
+        elif pos == 2:
+            usecs += v * 86400 * 1000000
+        else:
+            months += v * (12, 1)[pos]
+    if seen == 0:
+        raise _DurErr("no component")
+    return neg, months, usecs
+
+
 def k_duration_iso(desc, F, days, secs, us):
-    """duration_isoformat(timedelta-like): sign and component structure of the output (XSD duration lexical space)"""
+    """duration_isoformat(timedelta-like with symbolic integer fields): the text is in the XSD duration lexical space
+    and denotes the same number of microseconds (read back by a grammar-derived reader)"""
     from rdflib.xsd_datetime import duration_isoformat
 
     class TD:
@@ -110,14 +188,14 @@ def k_duration_iso(desc, F, days, secs, us):
     td.days, td.seconds, td.microseconds = days, secs, us
     out = duration_isoformat(td)
     total = (days * 86400 + secs) * 1000000 + us
-    neg = out[:1] == "-"
-    body = out[1:] if neg else out
-    if body[:1] != "P" or len(body) < 2:
-        return "duration text does not start with P<component>"
-    if neg != (total < 0):
-        return "duration text has the wrong sign"
-    if body[len(body) - 1] == "T":
-        return "duration text ends in a bare T"
+    try:
+        neg, months, usecs = _ref_parse_duration(out)
+    except _DurErr:
+        return "duration_isoformat output is not in the XSD duration lexical space"
+    if months != 0:
+        return "a timedelta is written with years or months"
+    if (-usecs if neg else usecs) != total:
+        return "duration_isoformat output denotes a different duration"
     return None
 
 
@@ -222,6 +300,16 @@ def obligations(tier, seed):
     for fn in ("collapse", "replace"):
         obs.append(dict(oid="K/ws-idempotent/%s/len<=%d" % (fn, n), family="k-ws-idempotent", desc={"fn": fn}, sig=[("s", "s")],
                         pre=["len(s) <= %d" % n], budget=300 if tier == "quick" else 2000))
+    # duration_isoformat on a timedelta-like record with symbolic integer fields, split by magnitude so that each obligation has a
+    # small number of digit-count paths: sub-minute with microseconds; time of day; days (either sign)
+    dur = [("sub-minute/us-digits=%d" % k, ["days == 0", "0 <= secs < 60", "%d <= us < %d" % (10 ** (k - 1), 10 ** k)]) for k in range(1, 5 if tier == "quick" else 7)]
+    dur += [("time-of-day", ["days == 0", "0 <= secs < 86400", "us == 0"]),
+           ("days", ["-100 < days < 100", "0 <= secs < 60", "0 <= us < 10"])]
+    if tier == "thorough":
+        dur.append(("day-time-us", ["0 <= days < 10", "0 <= secs < 86400", "0 <= us < 1000000"]))
+    for name, pre in dur:
+        obs.append(dict(oid="K/duration-iso/%s" % name, family="k-duration-iso", desc={}, sig=[("days", "i"), ("secs", "i"), ("us", "i")], pre=pre,
+                        budget=300 if tier == "quick" else 3000))
     return obs
 
 
@@ -229,6 +317,8 @@ def bounds(tier):
     return {"k-int-range": "13 integer-derived datatypes, all integers (unbounded)", "k-boolean": "all strings of length <= 5",
             "k-eq-numeric": "Literal.eq / neq for every pair of 6 numeric datatypes, values all integers (unbounded), and against a Python int",
             "k-days-in-month": "all integer years, months 1..12", "k-ws-idempotent": "all strings of length <= %d" % (3 if tier == "quick" else 4),
+            "k-duration-iso": "duration_isoformat on a timedelta-like record: |days| < 100, every second of the day, microsecond counts below 10^4 "
+                              "(thorough: all), in 6 (thorough 9) magnitude classes; the text is read back by a grammar-derived reader and must denote the same number of microseconds",
             "regex-inclusion": "XSD duration and language lexical spaces within the live parsing patterns, strings of every length",
             "outside": "float/double/decimal/date/time/dateTime value mappings, Literal construction itself, eq() on values"}
 
